@@ -26,11 +26,11 @@ def bad_calls(ctx, idx, o):
     return [o["calls"][i - 1] for i in ids]
 
 
-def run_rpc(ctx, prop, test, cases, nontrivial):
+def run_rpc(ctx, prop, test, cases, nontrivial, out="obs.ndjson"):
     casep = ctx.write_ndjson("cases.ndjson", cases)
     ov = ctx.overlay(main_files=["helpers_test.go", "arch_test.go", "rpc_test.go"])
     b = ctx.go_build(".", ov, name="main_rpc")
-    obs = ctx.go_run(b, test, cases=casep, timeout_s=3400)
+    obs = ctx.go_run(b, test, cases=casep, timeout_s=3400, out=out)
     rejected = ctx.r4_judge(["Ledger", "RpcAbs", "Trace_Rpc"], "Trace_Rpc", obs, chunk=40, timeout_s=3000, constants="CONSTANT EpochLen = 432000\n")
     ncalls = 0
     for o in obs:
@@ -46,7 +46,7 @@ def run_rpc(ctx, prop, test, cases, nontrivial):
             sig = {"op": c["op"], "proto": c["proto"], "status": c["status"], "alias": c["alias"]}
             ctx.violation(sig, f"{c['op']}/{c['proto']} key={key} enc={c['enc']} with epochs {o['loaded']} loaded (search concurrency {o['conc']}): "
                                f"status={c['status']} {c['detail']} -> {dict((k, v) for k, v in c.items() if k not in ('detail',))}"[:900],
-                          case=cases[o["case"] - 1], obs={"loaded": o["loaded"], "conc": o["conc"], "call": c})
+                          case=cases[o["case"] - 1] if cases else None, obs={"loaded": o["loaded"], "conc": o["conc"], "call": c})
     ctx.validated = ncalls - sum(len(bad_calls(ctx, i, obs[i])) for i in rejected)
     ctx.extra["calls_judged"] = ncalls
     ctx.extra["configurations"] = len(obs)
@@ -67,6 +67,12 @@ def run(ctx):
     def nontrivial(o, c):
         return c["status"] == "ok" and (len(c["sigs"]) >= 2 or c["op"] == "getTransaction")
     run_rpc(ctx, "C02", "^TestVerifC02$", cases, nontrivial)
+    if not ctx.replay:
+        # directed: a block whose CAR span exceeds the 10 MiB prefetch window of the getBlock handlers
+        keep = (ctx.evaluations, ctx.validated)
+        run_rpc(ctx, "C02", "^TestVerifC02Big$", [], nontrivial, out="obs_big.ndjson")
+        ctx.evaluations += keep[0]
+        ctx.validated += keep[1]
     ctx.samples += cases[:1]
     ctx.assumptions += ["archives are well-formed: every block has >= 1 entry; parent_slot = 0 only for slots 0 and 1; epoch 0 contains slot 0",
                         "slot 0 is exempt from the block-time / height comparison (the server answers with the genesis creation time, as Solana's RPC does)",
